@@ -23,7 +23,7 @@ pub uninterp spec fn obj_get(o: ObjM, key: Seq<char>) -> Option<V>;      // Obje
 pub uninterp spec fn dyn_find(d: DynM, key: Seq<char>) -> Option<V>;     // a user Document::find
 pub uninterp spec fn dyn_permits(d: DynM, key: Seq<char>) -> bool;       // keys the user document may be asked
 
-pub uninterp spec fn cow_view(c: Cow<'_, str>) -> Seq<char>;
+
 
 impl View for Value<'_> {
     type V = V;
